@@ -54,7 +54,14 @@ def operands_case(version, symbol, k1, k2, compat=None, schema=False, nitems=2):
         op2 = KINDS[k2](S, 'op2', ex)
         tok = mk_token(version, symbol, parser=mk_parser(version, compat), nitems=nitems)
         ctx = mk_context(schema)
-        hooks = std_hooks(tok, {'self.get_operands': lambda ex, node, a, kw: VTuple([op1, op2])})
+        def remainder(ex, node, a, kw):
+            # T-DECREM (helpers.decimal_remainder, not under contract): the exact remainder of the truncated division of two exact operands
+            ra, rb = I.as_real_term(a[0]), I.as_real_term(a[1])
+            if ex.test(VBool(rb == 0)):
+                ex.raise_py(decimal.InvalidOperation)          # Decimal % 0 signals DivisionUndefined / InvalidOperation
+            qt = I.trunc_real(ra / rb)
+            return VDec(ra - rb * z3.ToReal(qt))
+        hooks = std_hooks(tok, {'self.get_operands': lambda ex, node, a, kw: VTuple([op1, op2]), 'decimal_remainder': remainder})
         return Case([tok, ctx], names={}, hooks=hooks, label=f'{k1}x{k2}')
     return setup
 
@@ -109,9 +116,9 @@ for version in ('2.0',):
             post=[
                 ('zero_divisor_iff_FOAR0001', "(raised_code == 'FOAR0001') == (op2 == 0)"),
                 ('truncates_toward_zero',
-                 "op2 == 0 or raised_code == 'FOAR0002' or (returned and result == trunc_div(op1, op2))"),
-                ('overflow_only_when_huge',
-                 "raised_code != 'FOAR0002' or huge(op1, op2)"),
+                 "op2 == 0 or (returned and result == trunc_div(op1, op2))"),
+                ('never_an_overflow_error',            # the result is an xs:integer: exact whatever the size of the quotient
+                 "raised_code != 'FOAR0002'"),
                 ('result_is_integer', "not returned or is_int(result)"),
                 ('only_coded_errors', "returned or raised_code is not None"),
             ],
@@ -125,9 +132,9 @@ for version in ('2.0',):
             post=[
                 ('zero_divisor_iff_FOAR0001', "(raised_code == 'FOAR0001') == (op2 == 0)"),
                 ('sign_of_dividend_identity',
-                 "op2 == 0 or raised_code == 'FOAR0002' or (returned and exact(result) == mod_spec(op1, op2))"),
-                ('overflow_only_when_huge',
-                 "raised_code != 'FOAR0002' or huge(op1, op2)"),
+                 "op2 == 0 or (returned and exact(result) == mod_spec(op1, op2))"),
+                ('never_an_overflow_error',            # the remainder of exact operands is exact whatever the size of the quotient (under T-DECREM)
+                 "raised_code != 'FOAR0002'"),
                 ('result_type', "not returned or is_int(result) or (is_dec(result) and not (is_int(op1) and is_int(op2)))"),
                 ('only_coded_errors', "returned or raised_code is not None"),
             ],
@@ -651,6 +658,28 @@ def big_rounding(tier, seed):
                     if not ok:
                         fails.append({'key': f'{expr}|{a!r}', 'what': f'{expr} with $a={a!r}: got {got!r}, F&O value {want}',
                                       'expr': expr, 'a': repr(a)})
+    # exact results on operands beyond the 28 digits of the decimal context: unary minus / plus / abs, mod and idiv (the result is small or an unbounded integer)
+    big = ['100000000000000000000000000001', '100000000000000000000000000001.5', '-123456789012345678901234567890123456789.123', '12345678901234567890123456789012345.5',
+           '1000000000000000000000000000000000000000', '-99999999999999999999999999999999.99', '0.000000000000000000000000000000000001']
+    small = ['10.0', '7', '0.001', '-3.5', '0.7', '1' + '0' * 30, '-99999999999999999999999999999.5']
+    for a in big:
+        for fn_, spec in (('-{a}', lambda x: -x), ('+{a}', lambda x: x), ('abs({a})', abs), ('-(-{a})', lambda x: x)):
+            n += 1
+            seen.add(('big unary', fn_))
+            expr = fn_.format(a='$a')
+            got = eval_native('3.1', expr, a=decimal.Decimal(a))
+            if got[0] != 'return' or not isinstance(got[1], decimal.Decimal) or Fraction(got[1]) != spec(Fraction(a)):
+                fails.append({'key': f'{fn_.format(a="xs:decimal(big)")} is not exact beyond 28 digits', 'what': f'{expr} with $a = {a}: got {got!r}, exact value {spec(Fraction(a))}', 'expr': expr, 'a': a})
+        for b in small:
+            fa, fb = Fraction(a), Fraction(b)
+            q = int(fa / fb)
+            for op, want in (('mod', fa - fb * q), ('idiv', q)):
+                n += 1
+                seen.add(('big ' + op,))
+                expr = f"$a {op} $b"
+                got = eval_native('3.1', expr, a=decimal.Decimal(a), b=decimal.Decimal(b))
+                if got[0] != 'return' or Fraction(got[1]) != want or (op == 'idiv' and type(got[1]) is not int):
+                    fails.append({'key': f'{op} is not exact when the quotient exceeds 28 digits', 'what': f'{expr} with $a = {a}, $b = {b}: got {got!r}, exact value {want}', 'expr': expr, 'a': a})
     return {'evaluations': n, 'distinct': len(seen), 'failures': fails[:20], 'n_failures': len(fails),
             'scope': 'integers/decimals with 25..45 (thorough: 20..60) digits x fractions {.5,.25,.75,...} x precision '
                      '{absent,0,-1,-2,-5,1,2} x {round, round-half-to-even}; oracle: exact Fraction arithmetic',
